@@ -4,7 +4,7 @@ Tie (mode C + D): the real `build_signal_namespace` / `SignalNamespace.get_name`
 Lean model (`LitexModel/Namer`) through `call`; names compared exactly.  The reserved-keyword table is
 regenerated from /repo into `LitexModel/Generated/Keywords.lean`.  Reproducibility across interpreters
 (PYTHONHASHSEED) is validated, not proved."""
-import os, json, glob, itertools, random, shutil, collections
+import os, re, json, glob, itertools, random, shutil, collections
 
 import c02lib as L
 
@@ -34,6 +34,9 @@ def _kw(ctx):
 def variant(ctx):
     """Which model the real code is compared with: the code as it is, or — once known_findings.json lists
     C02-suffix-collision as fixed (i.e. the proposed get_name fix has been committed) — `getNameFixed`."""
+    forced = os.environ.get("C02_MODEL_VARIANT")          # "asis" | "fixed": for trials of the fix in a scratch copy
+    if forced in ("asis", "fixed"):
+        return "_fixed" if forced == "fixed" else ""
     fixed = any(e.get("id") == FINDING_SUFFIX and e.get("status") == "fixed" for e in ctx.known)
     return "_fixed" if fixed else ""
 
@@ -101,6 +104,20 @@ def classify_spec(ctx, spec, dnames, answers):
     if any(d != l for d, l in zip(names, leafs)):
         nt = True
         ctx.cov.count("dict: hierarchy/number/duid disambiguation")
+    for e, d in zip(spec["sigs"], dnames):
+        if d is None or e["rel"] is not None or len(e["bt"]) < 2:
+            continue
+        leaf = e["bt"][-1][0]
+        if any(re.search(r"(^|_)%s[0-9]+_" % re.escape(n), d) for n, k in e["bt"][:-1]):
+            ctx.cov.count("dict: numbered module element (use_number second pass)")
+            break
+    for e, d in zip(spec["sigs"], dnames):
+        if d is not None and e["rel"] is None and len(e["bt"]) >= 2 and d.startswith(e["bt"][-2][0] + "_"):
+            ctx.cov.count("dict: module name prefixed (use_name by conflict)")
+            break
+    if any(re.search(r"[^0-9][0-9]+\Z", d) and not re.search(r"[0-9]\Z", e["bt"][-1][0])
+           for e, d in zip(spec["sigs"], dnames) if d is not None and e["bt"]):
+        ctx.cov.count("dict: DUID rank or leaf number appended")
     if any(e["ovr"] is not None for e in spec["sigs"]):
         ctx.cov.count("namespace: name_override")
     if any(re.search(r"_[0-9]+\Z", a) for a in answers):
@@ -133,6 +150,8 @@ def run_spec_cases(ctx, specs, name, exhaustive=False, mode="C"):
                 dis.append({"kind": "namespace", "payload": sp, "order": order, "real": ans, "model": outs[2 * k + 1]})
             if classify_spec(ctx, sp, dn, ans):
                 nontriv += 1
+            if mode == "C-real":
+                ctx.cov.count("real hierarchies: hypothesis LegalSigs %s" % ("holds" if L.legal_inputs(sp) else "does NOT hold"))
             nsig = len(sp["sigs"])
             bases = []
             for i in sp["reqs"]:
@@ -165,6 +184,14 @@ def run_convert_case(ctx, src, seed, regular_comb, dis):
     if dup:
         if not (_listed_open(ctx) and L.suffix_shaped_region(bases, kwset)):
             dis.append({"kind": "monitor", "case": "convert-text", "payload": payload, "oracle": ["declared-twice", dup]})
+    for f in L.io_override_failures(r):
+        dis.append({"kind": "monitor", "case": "convert-text", "payload": payload, "oracle": ["io name_override"] + f})
+    for f in L.emission_order_failures(r, log):
+        dis.append({"kind": "monitor", "case": "convert-text", "payload": payload, "oracle": f})
+    if L.legal_inputs(spec):
+        ctx.cov.count("convert: hypothesis LegalSigs holds on the real back-traces")
+    else:
+        ctx.cov.count("convert: hypothesis LegalSigs does NOT hold")
     ctx.cov.count("convert: get_name requests", len(ans))
     ctx.cov.count("convert: memories/instances/internal registers named", len(spec["extra"]))
     return len(ans), any(a != b for a, b in zip(ans, bases))
@@ -267,6 +294,21 @@ def reproducibility_check(ctx, dis, nmods):
                       False, mode="repro")
 
 
+def region_tie(ctx, dis, cases):
+    """The known-finding region used by the monitors (Python) against the theorem's hypothesis (Lean)."""
+    lines = ["noshape " + " ".join("=" + c["bases"][i] for i in c["reqs"]) for c in cases]
+    outs = ctx.lean.call_batch(lines)
+    n_in = 0
+    for c, o in zip(cases, outs):
+        py_region = L.suffix_shaped_region([c["bases"][i] for i in c["reqs"]])
+        n_in += 1 if py_region else 0
+        if o not in ("0", "1") or (o == "0" and not py_region):
+            dis.append({"kind": "region", "payload": c, "python_region": py_region, "lean_noSuffixShapedBase": o})
+        if o == "1" and py_region:
+            ctx.cov.count("region: python predicate wider than the Lean hypothesis (k beyond the request count)")
+    ctx.cov.add_cases("known-finding region (Python) vs noSuffixShapedBase (Lean)", len(cases), n_in, False, mode="C")
+
+
 def sensitivity_selftest(ctx, dis):
     """The comparison must flag a perturbed model answer."""
     c = {"kw": True, "bases": ["x", "x"], "ovr": [False, True], "reqs": [0, 1]}
@@ -290,6 +332,12 @@ def correspond(ctx):
         "Python set/dict iteration order is not modelled: the dictionary stage is order-independent (buildDict_perm) and "
         "the get_name request order is an explicit input; cross-process reproducibility is validated by re-running convert()",
     ]
+    ctx.extra_trusted = [
+        "C02: the request order of get_name inside verilog.convert() is observed through a harness-side recording wrapper "
+        "around SignalNamespace.get_name (restored after each conversion); base names are read from the real objects",
+        "C02: IEEE 1364-2005 Annex B keyword list transcribed by hand (Lean: Namer.ieee1364_2005, Python: c02lib.IEEE_1364_2005)",
+        "C02: cross-process reproducibility (PYTHONHASHSEED, set/dict order) is validated by re-running convert(), not proved",
+    ]
     sensitivity_selftest(ctx, dis)
     keyword_table_check(ctx, dis)
     if getattr(ctx, "regen_changed", False):
@@ -305,12 +353,13 @@ def correspond(ctx):
     # exhaustive small domains
     dis += run_getname_cases(ctx, exhaustive_getname_cases(4 if quick else 5),
                              "get_name: all bases over {x,x_1,if,if_1}, n<=%d, all request orders" % (4 if quick else 5), True)
-    for n in ((1, 2, 3) if quick else (1, 2, 3, 4)):
+    for n in ((1, 2, 3, 4) if quick else (1, 2, 3, 4, 5)):
         dis += run_spec_cases(ctx, exhaustive_dict_specs(n),
                               "name dict: all %d-signal multisets, back-traces len<=2 over {a,b}x{0,1}" % n, True)
     # random
-    dis += run_getname_cases(ctx, [L.gen_getname_case(rng) for _ in range(3000 if quick else 40000)],
+    dis += run_getname_cases(ctx, [L.gen_getname_case(rng) for _ in range(8000 if quick else 60000)],
                              "get_name: random bases (suffix-shaped, keywords), shuffled/repeated requests")
+    region_tie(ctx, dis, [L.gen_getname_case(rng) for _ in range(1500 if quick else 15000)])
     # the proposed fix: the real method's source text with the fix applied, against `getNameFixed`; the
     # uniqueness/legality/stability oracles are applied without any exempted region
     cls = L.fixed_namespace_class() if variant(ctx) == "" else None
@@ -322,13 +371,13 @@ def correspond(ctx):
                                  "proposed fix (patched copy of get_name) vs getNameFixed: random", False, cls=cls, var="_fixed")
     else:
         ctx.cov.notes.append("proposed-fix job skipped: get_name no longer contains the lines the fix replaces")
-    dis += run_spec_cases(ctx, [L.gen_synthetic(rng) for _ in range(2500 if quick else 40000)],
+    dis += run_spec_cases(ctx, [L.gen_synthetic(rng) for _ in range(8000 if quick else 60000)],
                           "namespace: random synthetic back-traces depth<=5, related<=3, overrides")
-    dis += run_spec_cases(ctx, [L.gen_synthetic(rng, nsig=rng.randint(10, 24)) for _ in range(150 if quick else 3000)],
+    dis += run_spec_cases(ctx, [L.gen_synthetic(rng, nsig=rng.randint(10, 24)) for _ in range(500 if quick else 5000)],
                           "namespace: random synthetic back-traces, 10-24 signals")
     # real Migen hierarchies (tracer-derived back-traces)
     specs = []
-    for _ in range(200 if quick else 3000):
+    for _ in range(400 if quick else 4000):
         g = L.exec_real_source(L.gen_real_source(rng))
         reg = g["REG"]
         cap = 60 if quick else 150
@@ -337,10 +386,11 @@ def correspond(ctx):
         sp = L.spec_from_signals(reg, rng, kw=True, inset_prob=0.9)
         if L.spec_ok_for_lean(sp):
             specs.append(sp)
-    dis += run_spec_cases(ctx, specs, "namespace: real Module hierarchies (exec'd classes, depth<=5, tracer back-traces)")
+    dis += run_spec_cases(ctx, specs, "namespace: real Module hierarchies (exec'd classes, depth<=5, tracer back-traces)",
+                          mode="C-real")
     # end-to-end convert()
     nreq = nt = ncases = 0
-    for _ in range(60 if quick else 900):
+    for _ in range(120 if quick else 1500):
         src = L.gen_design_source(rng)
         seed = rng.randrange(1 << 30)
         n, t = run_convert_case(ctx, src, seed, rng.random() < 0.8, dis)
@@ -435,13 +485,50 @@ def _convert_named(names, as_ios=True):
     return r.main_source, [(s, r.ns.get_name(s)) for s in sigs]
 
 
+def _convert_specials():
+    """Memories / instances reach get_name through name_override: two memories `mem` next to a signal `mem_1`,
+    an instance `FOO` next to a signal named `FOO_1` while `FOO` ... (same class of collision)."""
+    from migen import Module, Signal, Memory, Instance, ClockDomain
+    from litex.gen.fhdl import verilog
+    m = Module()
+    m.clock_domains.cd_sys = ClockDomain("sys")
+    s = Signal(8, name="mem_1")
+    o = Signal(8, name="o")
+    mems = []
+    for k in range(2):
+        mem = Memory(8, 4, name="mem")
+        p = mem.get_port(async_read=True)
+        m.specials += mem, p
+        m.comb += p.adr.eq(s[:2])
+        mems.append((mem, p))
+    m.comb += o.eq(mems[0][1].dat_r ^ mems[1][1].dat_r)
+    i1 = Instance("FOO", name="u", i_a=s)
+    i2 = Instance("FOO", name="u", i_a=s)
+    u1 = Signal(name="u_1")
+    m.specials += i1, i2
+    m.comb += u1.eq(s[0])
+    r = verilog.convert(m, ios={s, o, u1, m.cd_sys.clk, m.cd_sys.rst}, name="top")
+    objs = [("signal mem_1", s), ("memory mem #0", mems[0][0]), ("memory mem #1", mems[1][0]),
+            ("signal u_1", u1), ("instance u #0", i1), ("instance u #1", i2)]
+    return r.main_source, [(k, r.ns.get_name(x)) for k, x in objs]
+
+
 def probe_suffix_collision():
     text, named = _convert_named(["x", "x", "x_1"])
     names = [n for s, n in named]
     collide = len(set(names)) < len(names)
     decl = L.declared_identifiers(text)
     twice = [n for n, c in collections.Counter(decl).items() if c > 1]
-    return collide, "signals named x, x, x_1 as ios of one module -> identifiers %s; declared twice in the text: %s" % (names, twice)
+    what = "signals named x, x, x_1 as ios of one module -> identifiers %s; declared twice in the text: %s" % (names, twice)
+    try:
+        text2, named2 = _convert_specials()
+        n2 = [n for k, n in named2]
+        if len(set(n2)) < len(n2):
+            collide = True
+            what += "; memories/instances: %s" % named2
+    except Exception as e:      # the second witness is informative only
+        what += "; (memory/instance witness not run: %r)" % (e,)
+    return collide, what
 
 
 def probe_keyword_blanks():
@@ -603,6 +690,25 @@ def replay(ctx, payload):
         text, named = _convert_named([f["input"]["signal_name"]])
         bad = named[0][1] in L.IEEE_1364_2005
         print("replay: signal named %r is emitted as %r -> %s" % (f["input"]["signal_name"], named[0][1], "STILL FAILS" if bad else "passes"))
+        return 1 if bad else 0
+    if f.get("case") == "reproducibility":
+        p = f["input"]
+        procs = [L.convert_in_fresh_interpreter(p["src"], p["seed"], hs) for hs in (1, 4242)]
+        outs = []
+        for pr in procs:
+            o, e = pr.communicate(timeout=300)
+            shutil.rmtree(pr._c02_dir, ignore_errors=True)
+            outs.append(o)
+        bad = outs[0] != outs[1]
+        print("replay: convert() text under two PYTHONHASHSEED values %s" % ("DIFFERS -> STILL FAILS" if bad else "is identical -> passes"))
+        return 1 if bad else 0
+    if f.get("case") == "convert-text":
+        p = f["input"]
+        r, log = L.convert_design(p["src"], p["seed"], p.get("regular_comb", True))
+        decl = L.declared_identifiers(r.main_source)
+        dup = [n for n, c in collections.Counter(decl).items() if c > 1]
+        bad = dup or L.io_override_failures(r) or L.emission_order_failures(r, log)
+        print("replay: text monitors:", bad if bad else "pass")
         return 1 if bad else 0
     if f.get("case") in ("getname", "dict", "namespace", "convert"):
         r = _real_failure(ctx, f["case"], f["input"], respect_known=False)
